@@ -154,3 +154,14 @@ package controllerv1
 //@   ensures isnil(result1) ==> result0 != nil
 //@ func (*TempoController).Trace [C12]
 //@   flag checks=-assert,-index,+nilchan
+
+// render-diff reads the first value of six parameters: each of them has been checked to be
+// there before it is read (an index into an absent parameter panics on the handler's
+// goroutine, which has no recover: the request would end without an answer).
+//@ func (*ProfController).RenderDiff [C12]
+//@   flag checks=-assert,-slice,-make,-nil
+//@   loop 1:
+//@     invariant checked-so-far: (rangeindex >= 0 ==> len(r.URL.Query()["leftQuery"]) > 0) && (rangeindex >= 1 ==> len(r.URL.Query()["leftFrom"]) > 0) && (rangeindex >= 2 ==> len(r.URL.Query()["leftUntil"]) > 0) && (rangeindex >= 3 ==> len(r.URL.Query()["rightQuery"]) > 0) && (rangeindex >= 4 ==> len(r.URL.Query()["rightFrom"]) > 0) && (rangeindex >= 5 ==> len(r.URL.Query()["rightUntil"]) > 0)
+//@     modifies nothing
+//@   loop 2:
+//@     modifies leftFrom, leftTo, rightFrom, rightTo
